@@ -457,6 +457,7 @@ func (c *Ctx) checkParseReach(r *Report, parse *ssa.Function) {
 	} else {
 		r.OK(key, "no go statement, os.Exit or log.Fatal in the %d module functions reachable from Parse", n)
 	}
+	c.wholeProgramObligation(r, key+"#whole-program", []*ssa.Function{parse}, true, true, false, "reachable below Parse, outside the reach of its recover")
 }
 
 func (c *Ctx) checkUnquoter(r *Report, g *grammarInfo) {
